@@ -1224,6 +1224,15 @@ class MountPointStore(RoutingStore):
             return self.default_store
         raise KeyRouteNotFoundStoreException(key=key, store=self)
 
+    def is_supported(self, key):
+        # the root, the mount points and their parents are directories of this store whether or not a default store exists
+        if self.is_dir(key):
+            return True
+        try:
+            return super().is_supported(key)
+        except KeyRouteNotFoundStoreException:
+            return False
+
     def get_metadata(self, key):
         try:
             metadata = self.route_to(key).get_metadata(key)
